@@ -62,6 +62,12 @@ def signature(ref, nb):
             if 'outputs' not in c: c['outputs'] = []; hit = True
             if 'execution_count' not in c: c['execution_count'] = None; hit = True
     if hit: sigs.append('cell-type-change-merged-with-fields-of-the-other-cell-type')
+    if sigs and ref.is_valid(key, fixed): return sigs, detail
+    hit = False
+    for c in cells:
+        if isinstance(c, dict) and isinstance(c.get('outputs'), list) and any(o == {} for o in c['outputs']):
+            c['outputs'] = [o for o in c['outputs'] if o != {}]; hit = True
+    if hit: sigs.append('cleared-output-is-empty-dict')
     if sigs and ref.is_valid(key, fixed):
         # keep only the repairs that are needed
         return sigs, detail
@@ -84,6 +90,12 @@ def build_tasks(chk, tier, ref):
         else: skipped += 1
     cfgs_all = c04_cases.cli_configs() + c04_cases.api_configs()
     tasks = []; meta = []
+    for name, b, l, rm in good:
+        if name in c04_cases.CORPUS_ARGS:
+            c = c04_cases.CORPUS_ARGS[name]
+            tasks.append({'op': 'merge', 'base': b, 'local': l, 'remote': rm, 'args': c}); meta.append((name, c))
+            if c04_cases.is_cli(c):
+                tasks.append({'op': 'nbmerge_out', 'base': b, 'local': l, 'remote': rm, 'args': c}); meta.append((name, c))
     if tier == 'quick':
         for ti, (name, b, l, rm) in enumerate(good):
             cfgs = c04_cases.sample_configs(r, 6) if name.startswith('hand:') else c04_cases.sample_configs(r, 5)[:1] + [r.choice(cfgs_all) for _ in range(3)]
